@@ -206,14 +206,37 @@ fn damage(p: &str, kind: u8, sel: u16) -> String {
 }
 
 pub fn limits(tier: Tier) -> (usize, u128) {
-    // (max groups, max expansions)
-    (tier.pick(10, 14), tier.pick(256, 1024))
+    // (max groups, max expansions); matching is linear in the number of expansions, so the
+    // number of groups is bounded only to keep patterns readable
+    (120, tier.pick(256, 1024))
+}
+
+/// patterns with many groups on one expansion path, or one group with many alternatives
+fn wide_or_deep() -> BoxedStrategy<String> {
+    prop_oneof![
+        // p{a}{b}{c}... : 30-100 single-alternative groups in a row, one of them two-way
+        (30usize..100, any::<u16>()).prop_map(|(n, s)| {
+            let two = idx(s, n);
+            let mut p = String::from("p");
+            for i in 0..n {
+                if i == two { p.push_str("{x,y}"); } else { p.push_str("{a}"); }
+            }
+            p.push_str("-1");
+            p
+        }),
+        // {{{{foo}}}}-[0-9]* : 30-100 nested groups
+        (30usize..100).prop_map(|n| format!("{}foo,bar{}-[0-9]*", "{".repeat(n), "}".repeat(n))),
+        // {p0,p1,...,pN}-[0-9]* : one group with 20-90 alternatives
+        (20usize..90).prop_map(|n| format!("{{{}}}-[0-9]*", (0..n).map(|i| format!("p{}", i)).collect::<Vec<_>>().join(","))),
+    ]
+    .boxed()
 }
 
 fn case_strategy(tier: Tier) -> BoxedStrategy<Case> {
     let (max_groups, max_count) = limits(tier);
     let pat = prop_oneof![
-        8 => pattern_strategy(3),
+        16 => pattern_strategy(3),
+        1 => wide_or_deep(),
         2 => (pattern_strategy(3), any::<u8>(), any::<u16>()).prop_map(|(p, k, s)| damage(&p, k, s)),
         1 => prop::collection::vec(prop::sample::select(vec!['{', '}', ',', 'a']), 0..10).prop_map(|v| v.into_iter().collect::<String>()),
     ];
@@ -266,7 +289,7 @@ fn depth(p: &str) -> usize {
 }
 
 /// groups / expansions a case may have and still be evaluated (guards replay as well)
-const HARD_GROUPS: usize = 14;
+const HARD_GROUPS: usize = 120;
 const HARD_COUNT: u128 = 1024;
 
 pub fn check(c: &Case, obs: &mut Obs) -> Result<(), String> {
@@ -353,7 +376,7 @@ pub fn check(c: &Case, obs: &mut Obs) -> Result<(), String> {
 pub fn property() -> Property {
     Property {
         id: "C04",
-        rule: "Patterns from the csh brace grammar (nesting depth <= 3, <= 4 items per level, 1-3 alternatives incl. empty ones, text pieces a b c d - 1 2 . * ? [0-9] [a,b] [!a-c] [ ] é >= <= < > and empty), bounded to <= 10 groups / <= 256 expansions (thorough: 14 / 1024); unbalanced variants by deleting / inserting / flipping one brace and random strings over { } , a. Names: (i) an instance of a randomly chosen true expansion (plain -> itself, glob -> instantiated, dewey -> base-version around the bounds); (ii) decoys = instances of strings produced by deliberately wrong expanders (first-'}' pairing with all-depth comma split, first-'{'/last-'}' pairing, dropped empty alternatives, braces ignored) that are not true expansions; (iii) one-character mutations of (i). Oracle: Pattern::new is Ok iff braces are properly nested (M-brace balanced); when Ok, matches(name) iff some string of M-brace expand(pattern) compiles and matches name as a pattern in its own right. Non-trivial = nesting depth >= 2 or >= 2 groups, >= 2 expansions, name of kind (i) or (ii). Distinct = distinct (pattern, name).",
+        rule: "Patterns from the csh brace grammar (nesting depth <= 3, <= 4 items per level, 1-3 alternatives incl. empty ones, text pieces a b c d - 1 2 . * ? [0-9] [a,b] [!a-c] [ ] é >= <= < > and empty), bounded to <= 256 expansions (thorough: 1024); one pattern in ~20 has 30-100 groups on a single expansion path (in a row or nested) or one group with 20-90 alternatives; unbalanced variants by deleting / inserting / flipping one brace and random strings over { } , a. Names: (i) an instance of a randomly chosen true expansion (plain -> itself, glob -> instantiated, dewey -> base-version around the bounds); (ii) decoys = instances of strings produced by deliberately wrong expanders (first-'}' pairing with all-depth comma split, first-'{'/last-'}' pairing, dropped empty alternatives, braces ignored) that are not true expansions; (iii) one-character mutations of (i). Oracle: Pattern::new is Ok iff braces are properly nested (M-brace balanced); when Ok, matches(name) iff some string of M-brace expand(pattern) compiles and matches name as a pattern in its own right. Non-trivial = nesting depth >= 2 or >= 2 groups, >= 2 expansions, name of kind (i) or (ii). Distinct = distinct (pattern, name).",
         assumptions: vec![
             "brace-free expansions are judged by the library itself ('matches as a pattern in its own right'); that machinery is checked independently by C02/C05",
             "patterns above the group/expansion bound are only checked for compile-ability",
